@@ -2,6 +2,7 @@
 package c08
 
 import (
+	"math"
 	"bytes"
 	"encoding/binary"
 	"fmt"
@@ -50,12 +51,16 @@ func run(c Case) (sig, msg string, o outcome) {
 		c.Reads = []int{512}
 	}
 	psig, pmsg := harness.Catch(func() {
-		src := gen.NewSource(c.Stream, c.Src)
-		if c.Fault > 0 {
-			src.FaultAt = c.Fault - 1
+		var in io.Reader = bytes.NewReader(c.Stream) // no pieces, no fault: the kind of source fbb uses (it has Len())
+		if len(c.Src) > 0 || c.Fault > 0 {
+			src := gen.SourceFor(c.Stream, c.Src)
+			if c.Fault > 0 {
+				src.FaultAt = c.Fault - 1
+			}
+			defer func() { o.faulted = src.Faulted() }()
+			in = src
 		}
-		defer func() { o.faulted = src.Faulted() }()
-		r, err := lzhuf.NewReader(src, c.B2)
+		r, err := lzhuf.NewReader(in, c.B2)
 		if err != nil {
 			if r != nil {
 				// constructor returns (reader, err) for a short size field; nothing to read
@@ -175,7 +180,29 @@ func fixCRC(z []byte, b2 bool) {
 }
 
 // validStream draws a valid stream and returns it with its origin label.
+// deepInput: a symbol distribution (levels symbols with counts base*ratio^j, then fresh never-used byte values)
+// that drives the adaptive Huffman tree so deep that the fresh symbols get codes of 16..17 bits - longer than
+// the 16 bit code register of the classic encoder, but a decoder walks the tree bit by bit and must follow.
+func deepInput(base, ratio float64, levels, fresh int) []byte {
+	var in []byte
+	for j := 0; j < levels; j++ {
+		n := int(math.Round(base * math.Pow(ratio, float64(j))))
+		for x := 0; x < n; x++ {
+			in = append(in, byte(200+j))
+		}
+	}
+	for i := 0; i < fresh; i++ {
+		in = append(in, byte(i))
+	}
+	return in
+}
+
 func validStream(t *rapid.T, b2 bool) ([]byte, string, int) {
+	if rapid.IntRange(0, 11).Draw(t, "deep") == 0 {
+		in := deepInput(rapid.SampledFrom([]float64{300, 500}).Draw(t, "deep_base"), rapid.SampledFrom([]float64{1.62, 1.7}).Draw(t, "deep_ratio"), 8, rapid.IntRange(40, 120).Draw(t, "deep_fresh"))
+		z, st := ref.EncodeLiterals(in, b2)
+		return z, fmt.Sprintf("literals/deep-huffman(depth %d)", st.MaxDepth), len(in)
+	}
 	switch rapid.IntRange(0, 2).Draw(t, "encoder") {
 	case 0:
 		in, fam := gen.Bytes(t, 8<<10)
@@ -213,7 +240,7 @@ func genCase(t *rapid.T) Case {
 	c := Case{B2: rapid.Bool().Draw(t, "b2"), Reads: gen.Schedule(t, "reads")}
 	kind := rapid.IntRange(0, 9).Draw(t, "kind")
 	if kind < 2 {
-		c.Src = gen.SourceSchedule(t, "src")
+		c.Src = gen.SourceScheduleEOF(t, "src")
 	}
 	if kind == 0 {
 		c.Stream = rapid.SliceOfN(rapid.Byte(), 0, 4096).Draw(t, "random")
@@ -306,7 +333,7 @@ func genCase(t *rapid.T) Case {
 		c.Origin = "trailing-garbage:" + origin
 	}
 	c.Stream = z
-	c.Src = gen.SourceSchedule(t, "src")
+	c.Src = gen.SourceScheduleEOF(t, "src")
 	if len(z) > 0 && rapid.IntRange(0, 3).Draw(t, "fault") == 0 {
 		c.Fault = 1 + rapid.IntRange(0, len(z)-1).Draw(t, "fault_at")
 	}
